@@ -32,7 +32,8 @@ ANCHOR = {
 def corrupt_json(rng, fc):
     """returns (text, category) for a corrupted JSON game"""
     obj = json.loads(fc.text)
-    kind = rng.choice(["truncate", "garbage", "drop", "rename", "type", "prob", "empty", "payoff", "actions", "recall", "chance"])
+    kind = rng.choice(["truncate", "garbage", "drop", "rename", "type", "prob", "empty", "payoff", "actions", "recall", "chance",
+                       "singles", "single-multi"])
 
     def nodes(o, acc):
         acc.append(o)
@@ -114,6 +115,22 @@ def corrupt_json(rng, fc):
         k = sorted(acts)[0]
         acts["zz_other"] = acts.pop(k)
         new = {"chance": {"outcomes": {"o0": {"prob": 1.0, "state": json.loads(json.dumps(n))}, "o1": {"prob": 1.0, "state": twin}}}}
+        n.clear()
+        n.update(new)
+        return json.dumps(obj), "game"
+    if kind in ("singles", "single-multi"):
+        # one infoset with a single action "a" at one node and a different single action / several actions at another
+        n = rng.choice(ns)
+        first = json.loads(json.dumps(n))
+        pl1 = rng.choice([True, False])
+        one = {"player": {"player_one": pl1, "infoset": "lonely", "actions": {"a": first}}}
+        if kind == "singles":
+            other = {"player": {"player_one": pl1, "infoset": "lonely", "actions": {"b": {"terminal": 1.0}}}}
+        else:
+            other = {"player": {"player_one": pl1, "infoset": "lonely", "actions": {"a": {"terminal": 1.0}, "c": {"terminal": 2.0}}}}
+        pair = [one, other]
+        rng.shuffle(pair)
+        new = {"chance": {"outcomes": {"o0": {"prob": 1.0, "state": pair[0]}, "o1": {"prob": 2.0, "state": pair[1]}}}}
         n.clear()
         n.update(new)
         return json.dumps(obj), "game"
